@@ -14,10 +14,6 @@ mod verif_c13_rtt_pto {
         Duration::new(secs, nanos)
     }
 
-    fn ns(d: Duration) -> u64 {
-        d.as_secs() * 1_000_000_000 + d.subsec_nanos() as u64
-    }
-
     /// used by the controller-level harnesses in congestion.rs (the tuple field is private to this module)
     impl ArcRtt {
         pub(crate) fn verif_any() -> Self {
@@ -37,26 +33,26 @@ mod verif_c13_rtt_pto {
         }
     }
 
-    /// base_pto(c) - smoothed_rtt == max(4*rttvar, 1 ms) * 2^c, exactly, for every backoff count the controller
-    /// can reach before the connection is abandoned (do_tick gives up when the count exceeds 6, i.e. at 7),
-    /// without shift or Duration overflow.
+    /// base case: base_pto(0) == smoothed_rtt + max(4*rttvar, kGranularity = 1 ms)  (RFC 9002 §6.2.1).
+    /// Together with `base_pto_doubles` (induction step, which also exercises every count 0..=7 for shift /
+    /// Duration overflow) this gives base_pto(c) - smoothed_rtt == max(4*rttvar, 1 ms) * 2^c for every count the
+    /// controller reaches before the connection is abandoned (do_tick gives up when the count exceeds 6).
+    /// (A single harness with the closed form and a symbolic count does not terminate in 10 min: two symbolic
+    /// 64-bit Duration multiplications.)
     #[kani::proof]
     fn base_pto_contract() {
         let rtt = any_rtt();
-        let c: u32 = kani::any();
-        kani::assume(c <= 7);
         let before = rtt.clone();
-        let d = rtt.base_pto(c);
-        let unit = (4 * ns(rtt.rttvar)).max(1_000_000);
-        assert!(d >= rtt.smoothed_rtt, "C13.pto.base.at_least_smoothed_rtt");
-        assert!(ns(d) - ns(rtt.smoothed_rtt) == unit << c, "C13.pto.base.backoff_is_unit_times_two_to_the_count");
-        assert!(ns(d) - ns(rtt.smoothed_rtt) >= 1_000_000, "C13.pto.base.at_least_granularity");
+        let d = rtt.base_pto(0);
+        let unit = (rtt.rttvar * 4).max(Duration::from_millis(1));
+        assert!(d == rtt.smoothed_rtt + unit, "C13.pto.base.count_zero_is_srtt_plus_max_4rttvar_granularity");
+        assert!(d - rtt.smoothed_rtt >= Duration::from_millis(1), "C13.pto.base.at_least_granularity");
         assert!(
             rtt.smoothed_rtt == before.smoothed_rtt && rtt.rttvar == before.rttvar,
             "C13.pto.base.sup.pure"
         );
-        kani::cover!(c == 7, "C13.pto.base.reach_count_7");
-        kani::cover!(c == 0 && ns(rtt.rttvar) == 0, "C13.pto.base.reach_granularity_floor");
+        kani::cover!(rtt.rttvar == Duration::ZERO, "C13.pto.base.reach_granularity_floor");
+        kani::cover!(rtt.rttvar > Duration::from_millis(1), "C13.pto.base.reach_rttvar_term");
     }
 
     /// the interval doubles with every unanswered probe: base_pto(c+1) - srtt == 2 * (base_pto(c) - srtt), c <= 6
